@@ -1,6 +1,6 @@
 """C08, CLI route (quick tier): `python -m tupimage.cli display …` commands run ONE AFTER ANOTHER on terminals that
 share a session database.  Every command runs as a real process on a pty of its own (its controlling tty = the
-terminal it talks to); WINDOWID names the terminal, so different values are different terminals of one session.
+terminal it talks to); the terminals are the clients of one (fake) tmux session, so they share the session database.
 What each terminal receives is fed, in order, to its specification terminal (`SpecTerminal` of c08), and every
 placeholder a command prints is judged as everywhere in C08: the terminal must hold a complete transmission of the
 image the printed rectangle stands for (`printok` of drv_e2e).  Each pool image is requested with its own geometry
@@ -75,6 +75,32 @@ def _run_cli(args, env, cwd, timeout=60):
     return os.waitstatus_to_exitcode(status), bytes(data)
 
 
+def _split_tty_stream(out: bytes):
+    """the bytes one command wrote to its tty -> (text outside tmux pass-through wrappers, the wrappers in order)"""
+    pre = b"\x1bPtmux;"
+    text, wrapped = bytearray(), bytearray()
+    i, n = 0, len(out)
+    while i < n:
+        j = out.find(pre, i)
+        if j < 0:
+            text += out[i:]
+            break
+        text += out[i:j]
+        k = j + len(pre)
+        while k < n:
+            if out[k] == 0x1B:
+                if k + 1 < n and out[k + 1] == 0x1B:
+                    k += 2
+                    continue
+                if k + 1 < n and out[k + 1] == 0x5C:
+                    k += 2
+                break
+            k += 1
+        wrapped += out[j:k]
+        i = k
+    return bytes(text), bytes(wrapped)
+
+
 def check_cli_seq(ctx: Ctx, c: dict):
     from . import c08 as M
     d = ctx.driver("drv_e2e")
@@ -91,8 +117,15 @@ def check_cli_seq(ctx: Ctx, c: dict):
         last_id = {}   # pool index -> id under which it was last printed
         shown = {}     # id -> token of the content that id stood for when it was (last) assigned by a display of the file
         env0 = {k: v for k, v in os.environ.items() if not (k.startswith("TUPIMAGE_") or k.startswith("SSH_") or k in ("TMUX", "VERIF_IN_PTY", "WINDOWID"))}
+        # Outside tmux every terminal window is a session of its own; terminals that SHARE a session database are the clients of
+        # one tmux session.  A fake `tmux` (harness/ptyhost.py) answers the library's `display-message` from the environment:
+        # client_pid names the attached client = the terminal; one pass-through layer wraps every graphics command.
+        from .ptyhost import write_fake_tmux
+        write_fake_tmux(os.path.join(td, "bin"))
         env0.update(TERM="xterm-kitty", TUPIMAGE_CONFIG="DEFAULT", TUPIMAGE_ID_DATABASE_DIR=os.path.join(td, "state"),
-                    TUPIMAGE_ID_SPACE=c["space"], TUPIMAGE_ID_SUBSPACE=c["sub"], TUPIMAGE_UPLOAD_METHOD=c["method"], PYTHONPATH=str(REPO))
+                    TUPIMAGE_ID_SPACE=c["space"], TUPIMAGE_ID_SUBSPACE=c["sub"], TUPIMAGE_UPLOAD_METHOD=c["method"], PYTHONPATH=str(REPO),
+                    PATH=os.path.join(td, "bin") + os.pathsep + env0.get("PATH", "/usr/bin:/bin"), TMUX="/tmp/fake,1,0",
+                    TUPIMAGE_NUM_TMUX_LAYERS="1", FAKE_TMUX_client_termname="xterm-kitty", FAKE_TMUX_pid="1", FAKE_TMUX_session_id="$0")
         if c.get("uploads_ago") is not None:
             env0["TUPIMAGE_REUPLOAD_MAX_UPLOADS_AGO"] = str(c["uploads_ago"])
         thr_u = c.get("uploads_ago") if c.get("uploads_ago") is not None else 1024
@@ -116,8 +149,8 @@ def check_cli_seq(ctx: Ctx, c: dict):
                 token[step[1]] = M._expected_token(e)[0]
                 continue
             w = str(step[2])
-            spec = specs.setdefault(w, M.SpecTerminal("W" + w))
-            env = dict(env0, WINDOWID=w)
+            spec = specs.setdefault(w, M.SpecTerminal("W" + w, layers=1))
+            env = dict(env0, FAKE_TMUX_client_pid=w)
             if op == "display":
                 i = step[1]
                 rows, cols = geom[i]
@@ -132,42 +165,34 @@ def check_cli_seq(ctx: Ctx, c: dict):
             rc, out = _run_cli(args, env, str(REPO))
             ctx.count(f"cli-seq:exit={'0' if rc == 0 else 'nonzero'}")
             now += 1_000_000
-            # the ordered stream of this command: graphics commands go to the specification terminal, text is decoded
-            pos = 0
+            # what this command wrote to its tty: the pass-through wrappers go to the specification terminal (through one tmux), the
+            # text outside them is decoded.  (The library transmits before it prints; order WITHIN one command is judged by the main
+            # C08 family on separate streams.)
+            text, wrapped = _split_tty_stream(out)
+            spec.feed(wrapped, now, lambda *a: None)
             printed_any = False
-            while pos < len(out):
-                k = out.find(b"\x1b_G", pos)
-                text = out[pos: k if k >= 0 else len(out)]
-                if text:
-                    for (iid, _pid), cells in M.decode_placeholders(M._printable(text)).items():
-                        printed_any = True
-                        rows = 1 + max(r for r, _ in cells)
-                        cols = 1 + max(cc for _, cc in cells)
-                        ctx.count("cli-seq:prints")
-                        j = by_geom.get((rows, cols))
-                        if j is None:
-                            ctx.mismatch("CLI printed a rectangle no request of the scenario asked for", c, [rows, cols], sorted(by_geom))
-                            continue
-                        if op == "display":
-                            tok = token[j]
-                            last_id[j] = iid
-                            shown[iid] = tok
-                        else:
-                            # re-display by id: the id stands for what it stood for when the file was displayed
-                            tok = shown.get(iid, token[j])
-                        r = d.ask(f"printok {thr_u} {20 * 1024 * 1024} {3600 * 1000000} {iid} {tok} {rows} {cols} {now} {spec.wire_log()}")
-                        if not r.startswith("1"):
-                            ctx.violation("CLI: placeholder printed for an image the terminal does not hold", c,
-                                          {"step": si, "command": args, "terminal": "WINDOWID=" + w, "printed_id": iid, "geometry": [rows, cols],
-                                           "expected": tok, "terminal_holds": r.split(" ", 1)[1], "exit": rc},
-                                          key="cli-" + M._vkey(None, r.split(" ", 1)[1], tok))
-                if k < 0:
-                    break
-                e = out.find(b"\x1b\\", k)
-                if e < 0:
-                    break
-                spec.feed(out[k: e + 2], now, lambda *a: None)
-                pos = e + 2
+            for (iid, _pid), cells in M.decode_placeholders(M._printable(text)).items():
+                printed_any = True
+                rows = 1 + max(r for r, _ in cells)
+                cols = 1 + max(cc for _, cc in cells)
+                ctx.count("cli-seq:prints")
+                j = by_geom.get((rows, cols))
+                if j is None:
+                    ctx.mismatch("CLI printed a rectangle no request of the scenario asked for", c, [rows, cols], sorted(by_geom))
+                    continue
+                if op == "display":
+                    tok = token[j]
+                    last_id[j] = iid
+                    shown[iid] = tok
+                else:
+                    # re-display by id: the id stands for what it stood for when the file was displayed
+                    tok = shown.get(iid, token[j])
+                r = d.ask(f"printok {thr_u} {20 * 1024 * 1024} {3600 * 1000000} {iid} {tok} {rows} {cols} {now} {spec.wire_log()}")
+                if not r.startswith("1"):
+                    ctx.violation("CLI: placeholder printed for an image the terminal does not hold", c,
+                                  {"step": si, "command": args, "terminal": "tmux client " + w, "printed_id": iid, "geometry": [rows, cols],
+                                   "expected": tok, "terminal_holds": r.split(" ", 1)[1], "exit": rc},
+                                  key="cli-" + M._vkey(None, r.split(" ", 1)[1], tok))
             if op == "display" and rc == 0 and not printed_any:
                 ctx.violation("CLI display of an existing file exited 0 without printing the image", c, {"step": si, "command": args}, key="cli-nothing-printed")
             if op == "display" and rc != 0 and os.path.exists(pool[step[1]]["path"]):
